@@ -582,4 +582,78 @@ theorem inv_step (c : Cfg) (hn : 0 < c.n) (s s' : State) (t : Nat) (h : Inv c s)
     · exact inv_stepW c s s' w (by assumption) h hs
     · cases hs
 
+
+/-! ## reachability and deadlock freedom -/
+/-- states reachable from `init` by pthread-call transitions and spurious wake-ups -/
+inductive Reach (c : Cfg) : State → Prop
+  | init : Reach c (init c)
+  | step {s s' : State} (t : Nat) : Reach c s → step? c s t = some s' → Reach c s'
+  | spur {s s' : State} (t : Nat) : Reach c s → spur? c s t = some s' → Reach c s'
+
+theorem reach_inv (c : Cfg) (hn : 0 < c.n) {s : State} (h : Reach c s) : Inv c s := by
+  induction h with
+  | init => exact inv_init c hn
+  | step t _ hs ih => exact inv_step c hn _ _ t ih hs
+  | spur t _ hs ih => exact inv_spur c _ _ t ih hs
+
+def Enabled (c : Cfg) (s : State) : Prop := ∃ t, t ≤ c.n ∧ (step? c s t).isSome = true
+
+theorem enabled_holder (c : Cfg) (s : State) (h : Inv c s) (ho : s.owner ≠ none) : Enabled c s := by
+  cases hown : s.owner with
+  | none => exact absurd hown ho
+  | some t =>
+    cases t with
+    | zero =>
+      have hc := h.own0.mp hown
+      refine ⟨0, Nat.zero_le _, ?_⟩
+      simp only [step?, stepC]
+      cases hp : s.cpc <;> simp_all
+    | succ w =>
+      have hwh := (h.ownW w).mp hown
+      have hw : w < c.n := by
+        rcases Nat.lt_or_ge w c.n with h1 | h1
+        · exact h1
+        · have := h.idleOut w h1; simp_all
+      refine ⟨w+1, by omega, ?_⟩
+      simp only [step?, hw, if_true, stepW]
+      cases hp : s.wpc w <;> simp_all
+      cases s.st w <;> rfl
+
+theorem enabled_worker_free (c : Cfg) (s : State) (w : Nat) (hw : w < c.n) (ho : s.owner = none)
+    (hp : s.wpc w = .lock1 ∨ s.wpc w = .woken ∨ s.wpc w = .lock2 ∨ s.wpc w = .exit) : Enabled c s := by
+  refine ⟨w+1, by omega, ?_⟩
+  simp only [step?, hw, if_true, stepW]
+  rcases hp with hp | hp | hp | hp <;> simp [hp, ho]
+
+theorem enabled_of_inv (c : Cfg) (s : State) (h : Inv c s) (hr : c.repaired = true)
+    (hf : s.cpc ≠ .final) : Enabled c s := by
+  by_cases ho : s.owner = none
+  case neg => exact enabled_holder c s h ho
+  have hC : (stepC c s).isSome = true → Enabled c s := fun hh => ⟨0, Nat.zero_le _, hh⟩
+  cases hp : s.cpc with
+  | final => exact absurd hp hf
+  | waiting =>
+    rcases h.waitRun hr hp with ⟨j, hj, hrun⟩ | ⟨w, hw⟩
+    · have hjn : j < c.n := Nat.lt_of_lt_of_le hj (active_le c _)
+      have h1 := h.createdAll (by simp [hp]) j hjn
+      have h2 := h.waitSt j
+      have h3 := h.exitTerm j
+      have h4 := (h.ownW j)
+      apply enabled_worker_free c s j hjn ho
+      cases hq : s.wpc j <;> simp_all
+    · have := (h.ownW w).mpr (by simp [hw]); simp_all
+  | join k =>
+    have hk := h.joinLt k hp
+    by_cases hd : s.wpc k = .done
+    · apply hC; simp [stepC, hp, hd]
+    · have h1 := h.createdAll (by simp [hp]) k hk
+      have h2 := h.waitSt k
+      have h3 := h.allTerm (by simp [hp]) k hk
+      have h4 := (h.ownW k)
+      have h5 := h.termPcs (by simp [hp]) k
+      apply enabled_worker_free c s k hk ho
+      cases hq : s.wpc k <;> simp_all
+  | _ => apply hC; simp [stepC, hp, ho]
+
+
 end PsV.Sync
